@@ -209,7 +209,7 @@ def gram_tol(gram, n):
     return 1e-9 * n * n * (gram[0][0] + gram[1][1] + gram[2][2]) + 1e-6
 
 
-def project_rows(d, n, gram, u, with_cell=False, max_cc=60):
+def project_rows(d, n, gram, u, with_cell=False, max_cc=60, tol=1e-6):
     """Project a unit_cell_atoms()/slab() style dict to grid rows; returns (rows, cc, offgrid)."""
     import numpy as np
     off = False
@@ -228,7 +228,7 @@ def project_rows(d, n, gram, u, with_cell=False, max_cc=60):
             # position relative to the reported cell: its integer part is shipped separately (fl) so that TLC decides
             # "in [0,1)"; the grid point is taken modulo the lattice (0.9999999999997 is the site 0, not the site N)
             xr = float(x) - cell[c]
-            k, o = to_grid(xr, n, 1e-6)
+            k, o = to_grid(xr, n, tol)
             fl.append(int(math.floor(xr)) if math.isfinite(xr) else 99)
             p.append(k % n + n * cell[c])
             pr.append(k + n * cell[c])           # the grid point the reported float actually is (for cart_pos)
@@ -244,14 +244,14 @@ def project_rows(d, n, gram, u, with_cell=False, max_cc=60):
     if gram is not None and len(rows):
         cart = np.asarray(d["cart_pos"], dtype=float)
         scale = n * n / (u * u)
-        tol = gram_tol(gram, n)
+        gtol = gram_tol(gram, n)
         m = len(rows)
         pairs = [(i, i) for i in range(m)] + [(i, (i * 7 + 3) % m) for i in range(m)]
         step = max(1, len(pairs) // max_cc)
         for i, j in pairs[::step]:
             v = float(np.dot(cart[i], cart[j])) * scale
             k = int(round(v))
-            if abs(v - k) > tol or abs(k) >= 2**31:
+            if abs(v - k) > gtol or abs(k) >= 2**31:
                 off = True
                 k = 0
             cc.append([i + 1, j + 1, k])
